@@ -369,8 +369,11 @@ class WorkerPool:
       elif maybe_acquire:
         unacquired_workers.append(worker)
     for worker in unacquired_workers:
-      if worker.acquire_by(self) and worker.has_capacity and worker.is_alive:
-        return worker
+      if worker.acquire_by(self):
+        if worker.has_capacity and worker.is_alive:
+          return worker
+        # Only keeps the worker that is handed out.
+        worker.release(self)
 
   @property
   def workers(self) -> list[Worker]:
